@@ -24,6 +24,10 @@ RULE = ('seeded URL shapes (ws/wss, default / explicit / cross ports, path, '
         'message event without Ready.  Non-trivial = request parsed and a '
         'reply delivered; distinct = distinct (url shape, reply shape, '
         'verdict) signatures')
+RULE += (' '
+         'Custom headers include the same name twice and names differing in '
+         'case only; rejected replies include Upgrade values with braces; '
+         'URL, agent and protocols with non-ASCII characters.')
 SHRINK_LISTS = [('attempts',), ('headers',), ('protocols',), ('cuts',)]
 EXPECTED_PROBES = ['must_ready', 'must_reject', 'must_protocol_error',
                    'folded_header', 'block_exactly_16384', 'block_16385',
